@@ -8,6 +8,14 @@ G  every case (page x library x 16 option combinations, incl. #invoke, failing L
    time-outs, template loops) runs on the real code: expand_stack after == before;
    each page is then repeated 300 times without start_page (cycling the options) and
    must not be reported as too deeply nested; message records carry the documented keys.
+W  combs (spec/Gen_ExpanderWidth.tla): WIDTH = how many constructs stand side by side in ONE piece of text
+   (101 / 150 / 300) x what the construct is (every kind of call, reference, link; flat or nested up to 60
+   deep) x which text holds them (page, template body, argument value, branch, default value on the page / in
+   a body, the arguments of one call, the parts of one link, the cases of one #switch, a body two templates
+   down) x options.  TLC evaluates the twin on each comb and on the same tooth alone, checks that the verdict
+   "too deep" does not depend on the width, and prints texts + predictions; the real code must restore the
+   path and must not report a comb as too deeply nested when it admits the single tooth (repeated 3 times
+   without start_page).
 V  the push/pop events of the real run (recorded with a list subclass installed as
    ctx.expand_stack) are compared with the twin's event log (DRIFT only: labels are
    internal).
@@ -15,6 +23,7 @@ V  the push/pop events of the real run (recorded with a list subclass installed 
 from __future__ import annotations
 
 import json
+import threading
 from pathlib import Path
 
 import common
@@ -114,6 +123,178 @@ def flat_items(c):
 def stack_labels(stack):
     return [list(ex.label_of(s)) if s != "Pg" else ["page", "Pg"] for s in stack]
 
+# ---------------------------------------------------------------------------------------
+# combs: many constructs side by side in one text (Gen_ExpanderWidth)
+COMB_REPS = 3
+
+
+class CombTLC(threading.Thread):
+    """Runs the comb generator beside the rest of the check."""
+
+    def __init__(self, cfg, check=True):
+        super().__init__(daemon=True)
+        self.cfg, self.check = cfg, check
+        self.res = self.err = None
+
+    def run(self):
+        try:
+            self.res = tlc("Gen_ExpanderWidth", self.cfg, workers=1, timeout=3000, check=self.check)
+        except BaseException as e:  # noqa: BLE001  (re-raised by the main thread)
+            self.err = e
+
+    def result(self):
+        self.join()
+        if self.err is not None:
+            raise self.err
+        return self.res
+
+
+def comb_name(c):
+    tooth = "+".join(c["pat"]) + f" x{c['n']} around {c['core']}" if c["n"] else {"ref": "{{{1}}}", "nw": "a<nowiki />", "text": "text"}[c["core"]]
+    return f"{c['width']} x [{tooth}] in {c['where']}"
+
+
+def comb_tpls(t):
+    # (TLC prints a function with an empty domain as an empty sequence)
+    return {k: tr.text(v) for k, v in t.items()} if isinstance(t, dict) else {}
+
+
+def comb_prepare(c):
+    """Texts of the comb and of its companion (the same tooth alone in the same place), as printed by TLC."""
+    page, tpls = tr.text(c["page"]), comb_tpls(c["tpls"])
+    tooth = tr.text(c["tooth"])
+    # binding guard: the printed texts really hold `width` teeth side by side
+    if sum(t.count(tooth) for t in [page, *tpls.values()]) < c["width"]:
+        raise common.TLCError(f"comb {comb_name(c)}: the printed texts do not hold {c['width']} copies of the tooth {tooth[:60]!r}")
+    return page, tpls, tr.text(c["one_page"]), comb_tpls(c["one_tpls"])
+
+
+def comb_observe(ctx, c, page, first):
+    ob = ex.run_case(ctx, {"o": c["o"], "page": [{"k": "t", "s": [page]}]})
+    msgs = ex.msg_summary(ctx)
+    return {"out": ob["out"], "nout": ob["nout"], "exc": ob["exc"], "before": ob["before"], "after": ob["after"],
+            "deep": sum(1 for _, s in msgs if s == "core/1115"), "cut": (ob["nout"] or "").count("<ERR:depth>"),
+            "nmsgs": len(msgs), "badmsgs": [str(m)[:200] for m in ex.bad_messages(ctx, "Pg")][:2] if first else []}
+
+
+def run_combs(idxs):
+    common.use_repo()
+    cases = _G["combs"]
+    res = []
+    with Scratch("c16w-") as d:
+        ctx = None
+        for idx in idxs:
+            c = cases[idx]
+            page, tpls, one_page, one_tpls = comb_prepare(c)
+            if ctx is None:
+                ctx = ex.make_ctx(d, c["base"], [], PREBODY, f"w{idx}")
+            r = {"idx": idx, "src": page, "tpls": tpls}
+            try:
+                # the tooth alone
+                for name, body in one_tpls.items():
+                    ctx.add_page("Template:" + name, 10, body=body, need_pre_expand=name in c["need"])
+                ctx.db_conn.commit()
+                ctx.start_page("Pg")
+                r["one"] = comb_observe(ctx, c, one_page, True)
+                # the comb, repeated without start_page
+                for name, body in tpls.items():
+                    ctx.add_page("Template:" + name, 10, body=body, need_pre_expand=name in c["need"])
+                ctx.db_conn.commit()
+                ctx.start_page("Pg")
+                r["empty_lists"] = not (ctx.errors or ctx.warnings or ctx.debugs or ctx.notes or ctx.wiki_notices)
+                r["reps"] = []
+                deep0 = 0
+                for rep in range(COMB_REPS):
+                    ob = comb_observe(ctx, c, page, rep == 0)
+                    ob["deep"], deep0 = ob["deep"] - deep0, ob["deep"]      # messages accumulate until start_page
+                    r["reps"].append(ob)
+                    if ob["exc"]:
+                        break
+            finally:
+                broken = any(ob["exc"] or ob["after"] != ob["before"] for ob in [r.get("one") or {"exc": "?"}] + r.get("reps", []))
+                if broken:
+                    ctx.db_conn.close()
+                    ctx = None
+            res.append(r)
+        if ctx is not None:
+            ctx.db_conn.close()
+    return res
+
+
+def judge_comb(o: Outcome, c, r):
+    """The statement: the path is restored after every call, so constructs side by side are never 'too deeply nested'.
+    Read on combs: a text of N siblings is not reported as too deep when the same construct alone in the same place is not
+    (and the twin agrees that nothing there is nested beyond the limit).  Where exactly the limit lies is not C16's business."""
+    name = comb_name(c)
+    o.shape(("comb", c["where"], tuple(c["pat"]), c["n"], c["core"], c["width"], common.json_key(c["o"])))
+    short = lambda s: s if s is None or len(s) <= 200 else s[:200] + " ..."   # noqa: E731
+    one = r["one"]
+    one_reported = bool(one["deep"] or one["cut"])
+    for i, ob in enumerate(r["reps"]):
+        o.evaluations += 1
+        case = {"origin": "comb", "comb": name, "page": short(r["src"]), "templates": {k: short(v) for k, v in r["tpls"].items()}, "options": c["o"],
+                "call": i + 1, "stack_before": ob["before"], "stack_after": ob["after"], "exception": ob["exc"], "out": short(ob["out"]),
+                "too_deep_errors": ob["deep"], "too_deep_elements_in_output": ob["cut"],
+                "model": {"reported_too_deep": c["reported"], "single_tooth_reported": c["one_reported"], "nesting_of_the_texts": c["nest"], "peak": c["peak"]},
+                "single_tooth": {"page": short(tr.text(c["one_page"])), "too_deep_errors": one["deep"], "out": short(one["out"])}}
+        if ob["exc"]:
+            o.violation(case, f"expand() raised {ob['exc']} on the comb [{name}]", cls="comb-exception")
+            return
+        if ob["after"] != ob["before"]:
+            o.violation(case, f"expand_stack after the call is {ob['after'][:6]} but was {ob['before']} before it (comb [{name}])", cls="comb-stack")
+            return
+        if ob["badmsgs"]:
+            o.violation({**case, "messages": ob["badmsgs"]}, "a recorded message lacks the documented keys / current title", cls="msgkeys")
+        real_reported = bool(ob["deep"] or ob["cut"])
+        if real_reported and not c["reported"]:
+            if one["exc"] is None and not one_reported:
+                what = (f"{ob['deep']} 'too deep recursion' error(s) recorded" if ob["deep"] else "no error recorded") + \
+                       (f" and {ob['cut']} 'too deep recursion' element(s) in the output" if ob["cut"] else "")
+                o.violation(case, f"{c['width']} constructs standing SIDE BY SIDE in one text ({c['where']}) are reported as too deeply nested on call {i + 1}: {what}, "
+                                  f"although the texts are nested only {c['nest']} deep and the same construct alone in the same place is expanded without "
+                                  "such a report: the depth verdict depends on the number of siblings, not on nesting (specification: depth is restored "
+                                  "between siblings - a page of N flat calls is never too deep)", cls="comb-false-depth")
+                return
+            o.note_drift({"comb": name, "model": "not too deep", "real": "too deep, also for the tooth alone", "real_out": short(ob["nout"])})
+            return
+        if c["reported"] != real_reported:
+            o.note_drift({"comb": name, "model": "too deep", "real": "not reported"})
+            return
+        if not real_reported and ob["nout"] != tr.text(c["out"]):
+            o.note_drift({"comb": name, "call": i + 1, "options": c["o"], "model_out": short(tr.text(c["out"])), "real_out": short(ob["nout"])})
+            return
+    if not r["empty_lists"]:
+        o.violation({"origin": "comb", "comb": name}, "start_page did not empty the message lists", cls="lists")
+    if one["exc"]:
+        o.violation({"origin": "comb", "comb": name, "page": tr.text(c["one_page"]), "exception": one["exc"]}, f"expand() raised {one['exc']}", cls="comb-exception")
+    elif one["after"] != one["before"]:
+        o.violation({"origin": "comb", "comb": name, "page": tr.text(c["one_page"]), "stack_after": one["after"]},
+                    f"expand_stack after the call is {one['after'][:6]} but was {one['before']} before it", cls="comb-stack")
+
+
+def combs_extend(o: Outcome, tier, gen: CombTLC, demo: CombTLC):
+    r = gen.result()
+    dm = demo.result()
+    o.add_tlc(f"Gen_ExpanderWidth[{tier}] laws+combs", r)
+    o.add_tlc("Demo_ExpanderWidth_accumulate", dm)
+    o.extra["demo_accumulating_pass_violates_PassIdentityBelowLimit"] = bool(dm.invariant_violated)
+    if not dm.invariant_violated:
+        raise common.TLCError("Demo_ExpanderWidth_accumulate no longer produces the counterexample (vacuity guard)")
+    combs = r.cases
+    if len(combs) < 50 or not any(c["width"] > 100 and not c["reported"] for c in combs):
+        raise common.TLCError("comb universe is vacuous")
+    _G["combs"] = combs
+    order = sorted(range(len(combs)), key=lambda i: -combs[i]["width"] * max(1, combs[i]["n"]))
+    print(f"[C16] {len(combs)} combs on the real code", flush=True)
+    for ob in pmap(run_combs, order, chunk=6):
+        judge_comb(o, combs[ob["idx"]], ob)
+    o.extra["combs"] = {"cases": len(combs), "widths": sorted({c["width"] for c in combs}), "places": sorted({c["where"] for c in combs}),
+                        "predicted_too_deep": sum(1 for c in combs if c["reported"]), "calls_per_comb": COMB_REPS}
+    o.rule += (" || combs (Gen_ExpanderWidth): one case per (place, tooth = pattern of kinds x depth x core, width, options); every case is distinct; "
+               "each is run with its companion of width 1 and repeated 3 times on one page")
+    top = combs[order[len(order) // 2]]
+    o.sample({"comb": comb_name(top), "model_reported_too_deep": top["reported"], "model_out": tr.text(top["out"])[:80]})
+
 
 def run(tier: str) -> int:
     o = Outcome(PID, tier)
@@ -122,6 +303,10 @@ def run(tier: str) -> int:
     o.assumptions = ["Lua runs offline through pure-Lua stand-ins for ustring/libraryUtil (harness/luastub.py)",
                      "module M's functions have the behaviour assumed by the twin (echo/err/pre/tpl/loop)"]
     thorough = tier == "thorough"
+    comb_gen = CombTLC(f"Gen_ExpanderWidth_{tier if thorough else 'quick'}.cfg")
+    comb_gen.start()
+    comb_demo = CombTLC("Demo_ExpanderWidth_accumulate.cfg", check=False)
+    comb_demo.start()
     uni = "C16" if thorough else "C16Q"
     r = tlc("Gen_Expander", f"Gen_Expander_{uni}.cfg", workers=1, timeout=3000)
     o.add_tlc(f"Gen_Expander[{uni}] laws+cases", r)
@@ -178,6 +363,8 @@ def run(tier: str) -> int:
     o.exhaustive = True
     mid = cases[len(cases) // 2]
     o.sample({"page": tr.render(mid["page"]), "options": mid["o"], "model_events": mid["ev"][:10], "model_out": tr.text(mid["out"])})
+    # W: combs (width of one text x kind x depth x place)
+    combs_extend(o, tier, comb_gen, comb_demo)
     # the per-page session state machine (spec/Session.tla): titles / sections stamped on messages, lists
     # emptied by start_page, path restored after every call, in longer mixed sessions
     import c16s
@@ -208,4 +395,30 @@ def selftest() -> int:
     """Binding demo: a twin prediction with a corrupted stack must be noticed."""
     r = tlc("Gen_Expander", "Demo_Expander_leak.cfg", workers=1, check=False)
     print("as-is design violates StackRestored in the model:", bool(r.invariant_violated))
-    return 0 if r.invariant_violated else 1
+    # combs: a pass that counts siblings as depth must be rejected by TLC, and a fabricated observation "too deep" on a comb
+    # whose tooth alone is fine must be rejected by the judge
+    d2 = tlc("Gen_ExpanderWidth", "Demo_ExpanderWidth_accumulate.cfg", workers=1, check=False)
+    print("a pass whose counter runs on across siblings violates PassIdentityBelowLimit in the model:", bool(d2.invariant_violated))
+
+    class _O:
+        evaluations = 0
+
+        def __init__(self):
+            self.v = []
+
+        def shape(self, k):
+            pass
+
+        def note_drift(self, x):
+            pass
+
+        def violation(self, case, why, cls=None):
+            self.v.append(cls)
+
+    c = {"where": "body", "pat": ["tpos"], "n": 0, "core": "ref", "width": 101, "o": {}, "reported": False, "one_reported": False, "nest": 2, "peak": 3,
+         "one_page": ["{{", "W1", "|", "x", "}}"], "out": ["x"]}
+    ok = {"out": "x", "nout": "x", "exc": None, "before": ["Pg"], "after": ["Pg"], "deep": 0, "cut": 0, "badmsgs": []}
+    fake = _O()
+    judge_comb(fake, c, {"src": "{{W1|x}}", "tpls": {}, "one": ok, "reps": [dict(ok, deep=1, cut=1, nout="<ERR:depth>")], "empty_lists": True})
+    print("fabricated 'too deep' on a comb is rejected:", fake.v == ["comb-false-depth"])
+    return 0 if r.invariant_violated and d2.invariant_violated and fake.v == ["comb-false-depth"] else 1
